@@ -367,7 +367,7 @@ fn all_strings(alphabet: &[char], max: usize) -> Vec<String> {
 // ------------------------------------------------------------------ through the shell
 
 /// Quoting styles for one pattern character / the whole pattern in `case` and trims.
-fn shell_cases() -> Vec<(String, Vec<String>)> {
+fn shell_cases(tier: Tier) -> Vec<(String, Vec<String>)> {
     let mut v: Vec<(String, Vec<String>)> = vec![];
     let mut add = |script: String, expect: &[&str]| v.push((script, expect.iter().map(|s| s.to_string()).collect()));
     // every special character, quoted in every style, must match only itself
@@ -446,6 +446,60 @@ fn shell_cases() -> Vec<(String, Vec<String>)> {
     add("x=aXbXc; args \"${x#*X}\" \"${x##*X}\" \"${x%X*}\" \"${x%%X*}\"".into(), &["args[bXc][c][aXb][a]"]);
     add("x=abcabc; args \"${x#a*c}\" \"${x##a*c}\" \"${x%a*c}\" \"${x%%a*c}\"".into(), &["args[abc][][abc][]"]);
     add("x='[a]b'; args \"${x#[[]}\" \"${x#[}\" \"${x%[!a]}\" \"${x#?a]}\"".into(), &["args[a]b][a]b][[a]][b]"]);
+    // Which of `#` `##` `%` `%%` a modifier is: every text of an operator symbol followed by up to
+    // three (thorough: four) units over {# % a * ? \# \% '#' "%"}, read by the rule of XCU 2.6.2
+    // (the first symbol selects the side; the same symbol, unquoted, right after it selects the
+    // longest match; everything after that is the pattern), on every subject of up to three
+    // characters over {a # %}; the expected remainder comes from the reference matcher.
+    {
+        let units: [(&str, PC); 9] = [
+            ("#", ('#', false)),
+            ("%", ('%', false)),
+            ("a", ('a', false)),
+            ("*", ('*', false)),
+            ("?", ('?', false)),
+            ("\\#", ('#', true)),
+            ("\\%", ('%', true)),
+            ("'#'", ('#', true)),
+            ("\"%\"", ('%', true)),
+        ];
+        let subjects = all_strings(&['a', '#', '%'], 3);
+        let mut seqs: Vec<Vec<usize>> = vec![vec![]];
+        let mut frontier: Vec<Vec<usize>> = vec![vec![]];
+        for _ in 0..tier.pick(3, 4) {
+            let next: Vec<Vec<usize>> = frontier.iter().flat_map(|f| (0..units.len()).map(move |u| { let mut g = f.clone(); g.push(u); g })).collect();
+            seqs.extend(next.iter().cloned());
+            frontier = next;
+        }
+        for sym in ['#', '%'] {
+            for seq in &seqs {
+                let longest = seq.first().is_some_and(|u| units[*u].0.len() == 1 && units[*u].1 .0 == sym);
+                let pat: Vec<PC> = seq[usize::from(longest)..].iter().map(|u| units[*u].1).collect();
+                let Parsed::Ok(ast) = parse(&pat) else { continue };
+                let text: String = std::iter::once(sym.to_string()).chain(seq.iter().map(|u| units[*u].0.to_string())).collect();
+                let mut script = String::from("for x in");
+                let mut expect = vec![];
+                for s in &subjects {
+                    script.push_str(&format!(" '{s}'"));
+                    let sc: Vec<char> = s.chars().collect();
+                    let rest = if sym == '#' {
+                        match ref_find(&ast, &sc, true, false, !longest, false) {
+                            Some((_, e)) => s[e..].to_string(),
+                            None => s.clone(),
+                        }
+                    } else {
+                        match ref_find(&ast, &sc, false, true, true, !longest) {
+                            Some((b, _)) => s[..b].to_string(),
+                            None => s.clone(),
+                        }
+                    };
+                    expect.push(format!("args[{rest}]"));
+                }
+                script.push_str(&format!("; do args \"${{x{text}}}\"; done"));
+                v.push((script, expect));
+            }
+        }
+    }
     // every sequence of up to four items, each with a pattern that matches the subject or not
     // and one of the four terminators (docs/src/language/commands/case.md): the first matching
     // item runs; after `;&` the next item runs whatever its pattern; after `;;&` / `;|` matching
@@ -607,7 +661,7 @@ pub fn run(tier: Tier) -> i32 {
     });
 
     // through the whole shell
-    let sc = shell_cases();
+    let sc = shell_cases(tier);
     let shell_runs = sc.len() as u64;
     sc.par_iter().for_each(|(script, expect)| {
         let r = vsh::run_once(&Setup::script(script), &Default::default());
